@@ -47,6 +47,24 @@ pub fn templates() -> Vec<Template> {
     Template { name: "Match", pieces: &["match ", " { A(v) -> ", ", _ -> ", " }"] },
     Template { name: "Lambda", pieces: &["(p) -> ", ""] },
     Template { name: "LambdaAnnot", pieces: &["(p: int, q: Str) -> ", ""] },
+    // one template per branch of the parser's `(`-disambiguation (lambda vs tuple vs parenthesised)
+    Template { name: "LambdaNoParam", pieces: &["() -> ", ""] },
+    Template { name: "LambdaTwo", pieces: &["(p, q) -> ", ""] },
+    Template { name: "LambdaLateAnnot", pieces: &["(p, q: int) -> ", ""] },
+    Template { name: "LambdaMidAnnot", pieces: &["(p, q, r: int, s) -> ", ""] },
+    Template { name: "LambdaEarlyAnnot", pieces: &["(p: int, q) -> ", ""] },
+    Template { name: "TupleIdsThen", pieces: &["(a, b, ", ")"] },
+    Template { name: "TupleIdOp", pieces: &["(a, b + ", ", a)"] },
+    Template { name: "ParenTrailingComma", pieces: &["(", ",)"] },
+    Template { name: "MethodCallTargs", pieces: &["", ".foo<int, Str>(", ")"] },
+    Template { name: "MatchOr", pieces: &["match ", " { A(v) | B(v) -> ", ", C -> ", " }"] },
+    Template { name: "MatchTuple", pieces: &["match ", " { (x, _) -> ", " }"] },
+    Template { name: "MatchStruct", pieces: &["match ", " { { x, y as z } -> ", " }"] },
+    Template { name: "LetTuple", pieces: &["{ let (x, y) = ", "; ", " }"] },
+    Template { name: "LetStruct", pieces: &["{ let { x, y as z } = ", "; ", " }"] },
+    Template { name: "LetVariant", pieces: &["{ let A(x) = ", "; ", " }"] },
+    Template { name: "LetAnnot", pieces: &["{ let v: int = ", "; ", " }"] },
+    Template { name: "LetOnly", pieces: &["{ let _ = ", "; }"] },
     Template { name: "Block", pieces: &["{ let v = ", "; ", " }"] },
     Template { name: "BlockStmt", pieces: &["{ ", "; ", " }"] },
     Template { name: "Ctor", pieces: &["A.b(", ")"] },
